@@ -77,6 +77,45 @@ func c03Family(seed uint64, family string) *lib.Pair {
 			nd = append(nd, old[b*lib.BS:(b+1)*lib.BS]...)
 		}
 		p.New.PutFile("a.bin", nd)
+	case "lowentropy":
+		// zero regions and repeated blocks: after a resume, data compared at a wrong old offset can still look equal
+		mkLow := func(blocks int) []byte {
+			var d []byte
+			tile := lib.RandomBytes(32*lib.KB, r.Uint64())
+			for b := 0; b < blocks; b++ {
+				switch r.Intn(4) {
+				case 0:
+					d = append(d, make([]byte, 32*lib.KB)...)
+				case 1:
+					d = append(d, tile...)
+				default:
+					d = append(d, lib.RandomBytes(32*lib.KB, r.Uint64())...)
+				}
+			}
+			return d
+		}
+		for i := 0; i < 3; i++ {
+			o := append(make([]byte, 64*lib.KB), mkLow(r.Range(10, 24))...)
+			nd := append([]byte(nil), o...)
+			for off := 70 * lib.KB; off < len(nd); off += 64*lib.KB + r.Intn(999) {
+				nd[off] ^= 0x01 // a one-byte change every ~64 KiB: many operations, hence many checkpoints inside the file
+			}
+			for k := 0; k < r.Range(4, 8); k++ { // zero some 32 KiB blocks, randomise others
+				b := r.Range(2, len(nd)/(32*lib.KB)-1)
+				blk := nd[b*32*lib.KB : (b+1)*32*lib.KB]
+				if r.Bool() {
+					for x := range blk {
+						blk[x] = 0
+					}
+				} else {
+					lib.FillRandom(blk[:r.Range(1, len(blk))], r.Uint64())
+				}
+			}
+			name := fmt.Sprintf("low%d.bin", i)
+			p.Old.PutFile(name, o)
+			p.New.PutFile(name, nd)
+		}
+		p.New.PutFile("new-low.bin", mkLow(6))
 	case "big": // one file spanning > 4 MiB so several checkpoints fall inside one file
 		a := lib.RandomBytes(4*lib.MB+3*lib.BS+1234, r.Uint64())
 		p.Old.PutFile("big.bin", a)
@@ -127,6 +166,9 @@ func c03Cases(tier string, seed uint64, flavor string) []lib.Case {
 		fam := "mixed"
 		if f == nfam-1 {
 			fam = "big"
+		}
+		if f == 1 || (f > 3 && f%4 == 1) {
+			fam = "lowentropy"
 		}
 		for _, bw := range []string{"fresh", "overlay"} {
 			for _, opt := range []bool{false, true} {
